@@ -249,6 +249,8 @@ def _plugin_classes():
                                         oldNames=[("verifOldFlags", None)]),
                 setting.Setting("verifRenamed", default=1, description="C17: active, expired and future-expiry old names",
                                 oldNames=[("verifOldActive", None), ("verifOldExpired", datetime.date(2000, 1, 1)),
+                                          # an undated name listed straight after an expired one: expiry is per old name, not carried over
+                                          ("verifOldAfterExpired", None),
                                           ("verifOldFuture", datetime.date(2999, 12, 31)), ("verifRetired", None)]),
                 setting.Setting("verifRetired", default=0, description="C17: a new setting that re-uses a name verifRenamed used to have"),
                 # enforced options with an EMPTY list: every option comes from another plugin (the shape of neutronicsKernel)
